@@ -132,7 +132,13 @@ Inductive Reach (c : cfg) : scr -> term -> option canvas -> bool -> Prop :=
       Reach c (clear s) t' last false
   | R_resize s t last shown t' :                           (* SIGWINCH delivered and acknowledged *)
       Reach c s t last shown -> resized_from t t' ->
-      Reach c (ack (winch s)) t' None false.
+      Reach c (ack (winch s)) t' None false
+  | R_interrupted s t last shown content cursor toks s' t' :   (* SIGWINCH in the middle of a draw: the frame is abandoned *)
+      Reach c s t last shown ->
+      canvas_ok c (t_cols t) (t_rows t) content -> cursor_ok (t_cols t) (t_rows t) cursor ->
+      draw_screen c s (t_cols t) (t_rows t) content cursor false true = Ok (toks, s') ->
+      resized_from (run t toks) t' ->
+      Reach c (ack s') t' None false.
 
 (* ---------- plain histories of draws as a function ---------- *)
 Fixpoint run_draws (c : cfg) (s : scr) (t : term) (frames : list canvas) : option (scr * term) :=
